@@ -35,7 +35,7 @@ def validate(out, prop, spec, trace, driver_args, known_tags=()):
                 out.known_finding(tag, known[tag]["what"])
                 continue
         out.violation("%s (%s)" % (cl, json.dumps({k: v for k, v in b.items() if k != "clause"})),
-                      {"driver": driver_args, "event": b})
+                      {"driver": driver_args, "event": b, "spec": spec})
     out.cov["evaluations"] += res["result"]["events"]
     out.cov["traces_validated_against_impl"] += res["result"].get("runs", 1)
     return res
@@ -162,7 +162,7 @@ def drive_validate(out, prop, binary, cmd, spec, extra, tier, seed, label):
     out.cov["distinct_nontrivial"] += st.get("distinct", 0)
     if len(out.cov["samples"]) < 6:
         out.cov["samples"] += read_first(tp, 4)
-    log("  %s: %d real calls validated by %s" % (label, st["events"], spec))
+    log("  %s: %s validated by %s" % (label, st.get("events", st.get("runs")), spec))
     return st
 
 
